@@ -926,6 +926,24 @@ func TestFixedOffenders(t *testing.T) {
 		{"for i in [1] { add_pattern(\"my_num\", \"\\\\d+\") }\ngrok(_, \"%{my_num:n}\")", "grok(_, \"%{my_num:n}\")", true, false},
 		{"grok(_, \"%{my_num:n}\")\nadd_pattern(\"my_num\", \"\\\\d+\")", "grok(_, \"%{my_num:n}\")", true, false},
 		{"if false { } elif true { add_pattern(\"a1\", \"x\") } elif true { grok(_, \"%{a1}\") }", "grok(_, \"%{a1}\")", true, false},
+		// a slice of a slice (of a slice): the offender in the inner slice's bounds, step or object
+		{"a = [1,2,3]\nb = a[nosuch():][1:]", "nosuch()", true, true},
+		{"a = [1,2,3]\nb = a[:nosuch()][1:]", "nosuch()", true, true},
+		{"a = [1,2,3]\nb = a[::nosuch()][0:2]", "nosuch()", true, true},
+		{"b = nosuch()[1:][0:1]", "nosuch()", true, true},
+		{"a = [1,2,3]\nb = a[pval():][::2]", "pval()", true, true},
+		{"a = [1,2,3]\nb = a[0:nosuch()][0:][0:]", "nosuch()", true, true},
+		{"a = [1,2,3]\nb = a[0:][0:nosuch()][0:]", "nosuch()", true, true},
+		{"a = [1,2,3]\nif a[1:][nosuch():] { }", "nosuch()", true, true},
+		{"a = [1,2,3]\nb = [1, nosuch()][0:][0:]", "nosuch()", true, true},
+		{"b = \"abc\"[nosuch():][0:]", "nosuch()", true, true},
+		{"a = [1,2,3]\nb = pval(a[nosuch():][1:])[0:]", "nosuch()", true, true},
+		// an alias declared in the body of a three-clause for is not visible in the header of that for (nor in a for-in's iterable)
+		{"for i = 0; i < 1; grok(_, \"%{X13:n}\") { add_pattern(\"X13\", \"\\\\d+\")\n i = i + 1 }", "grok(_, \"%{X13:n}\")", true, false},
+		{"for i = 0; grok(_, \"%{X13:n}\"); i = i + 1 { add_pattern(\"X13\", \"\\\\d+\")\n break }", "grok(_, \"%{X13:n}\")", true, false},
+		{"for ok = grok(_, \"%{X13:n}\"); false; { add_pattern(\"X13\", \"\\\\d+\") }", "grok(_, \"%{X13:n}\")", true, false},
+		{"for x in [grok(_, \"%{X13:n}\")] { add_pattern(\"X13\", \"\\\\d+\") }", "grok(_, \"%{X13:n}\")", true, false},
+		{"for i = 0; i < 1; i = i + 1 { for j = 0; j < 1; grok(_, \"%{X13:n}\") { add_pattern(\"X13\", \"a\")\n j = j + 1 } }", "grok(_, \"%{X13:n}\")", true, false},
 	}
 	for _, o := range offenders {
 		if strings.HasPrefix(o.name, "cast-type-near-miss") {
